@@ -7,11 +7,10 @@
     an all-zero file and perform the writes in stream order.  Later records
     overwrite earlier ones; positions never written read as zero. *)
 From Coq Require Import NArith ZArith List Bool.
+From KdV Require Import Base.ByteSeq.
 Import ListNotations.
 Local Open Scope N_scope.
 
-Definition byte := N.
-Definition bytes := list byte.
 
 Record rec := { r_pos : N; r_data : bytes }.
 Definition r_size (r : rec) : N := N.of_nat (length (r_data r)).
